@@ -640,7 +640,10 @@ func dischargeBounds(p *Prog, r *Resolver, rx map[string]*RegexVar, in ssa.Instr
 			if lb, ok := lenLowerBound(x.X, in); ok && k >= 0 && k < lb {
 				return true, fmt.Sprintf("(ii) index %d under a guard implying len >= %d", k, lb)
 			}
-			return false, fmt.Sprintf("constant index %d without a dominating length check", k)
+			if _, isPrm := strip(x.X).(*ssa.Parameter); !isPrm {
+				return false, fmt.Sprintf("constant index %d without a dominating length check", k)
+			}
+			// a constant index into a slice parameter: decided per call site by (i') below
 		}
 		// (i') idiom (i) in a helper that receives the match slice, the
 		// pattern and the group name as parameters: decided at every static
@@ -1101,11 +1104,12 @@ func sliceAfterMatchParam(p *Prog, s *ssa.Slice) (bool, string) {
 		return false, ""
 	}
 	r0 := NewResolver(p)
-	// low = len(P(m0)) + c, possibly through a local
+	// low = len(<m0>) + c, possibly through a local; <m0> is a parameter of
+	// the helper or a field of a (by-value struct) parameter
 	lo := r0.Of(s.Low)
-	var mp *ssa.Parameter
+	var mexpr ssa.Value
 	var cst int64
-	lenOfParam := func(o *Org) *ssa.Parameter {
+	lenOfParam := func(o *Org) ssa.Value {
 		if o.K != "call" || o.Name != "len" {
 			return nil
 		}
@@ -1113,65 +1117,74 @@ func sliceAfterMatchParam(p *Prog, s *ssa.Slice) (bool, string) {
 		if !ok || len(cl.Call.Args) != 1 {
 			return nil
 		}
-		prm, _ := strip(cl.Call.Args[0]).(*ssa.Parameter)
-		return prm
+		arg := strip(cl.Call.Args[0])
+		ao := r0.Of(arg)
+		root, _ := ao.FieldPath()
+		if prm, isP := root.V.(*ssa.Parameter); root.K == "param" && isP && prm.Parent() == fn {
+			return arg
+		}
+		return nil
 	}
 	switch {
 	case lo.K == "binop" && lo.Name == "+" && len(lo.Sub) == 2:
 		if q := lenOfParam(lo.Sub[0]); q != nil {
 			if k, ok := lo.Sub[1].ConstInt(); ok {
-				mp, cst = q, k
+				mexpr, cst = q, k
 			}
 		} else if q := lenOfParam(lo.Sub[1]); q != nil {
 			if k, ok := lo.Sub[0].ConstInt(); ok {
-				mp, cst = q, k
+				mexpr, cst = q, k
 			}
 		}
 	default:
 		if q := lenOfParam(lo); q != nil {
-			mp, cst = q, 0
+			mexpr, cst = q, 0
 		}
 	}
-	if mp == nil || mp.Parent() != fn {
+	if mexpr == nil {
 		return false, ""
 	}
 	if cst < 0 || cst > 1 {
 		return false, fmt.Sprintf("offset len(M[0])%+d is not covered by the inequality guard", cst)
 	}
-	idxOf := func(q *ssa.Parameter) int {
-		for i, x := range fn.Params {
-			if x == q {
-				return i
-			}
+	si := -1
+	for i, x := range fn.Params {
+		if x == sp {
+			si = i
 		}
-		return -1
 	}
-	si, mi := idxOf(sp), idxOf(mp)
 	sites := staticCallers(p, fn)
-	if len(sites) == 0 || si < 0 || mi < 0 {
+	if len(sites) == 0 || si < 0 {
 		return false, ""
 	}
 	for _, ci := range sites {
 		args := ci.Common().Args
-		if si >= len(args) || mi >= len(args) {
+		if si >= len(args) {
 			return false, ""
 		}
 		cr := NewResolver(p)
-		sArg, mArg := args[si], args[mi]
-		// mArg = M[0] with M a match call on sArg
-		ld, ok := strip(mArg).(*ssa.UnOp)
-		if !ok || ld.Op != token.MUL {
+		nr := cr.Bind(fn, ci)
+		sArg := args[si]
+		// the text whose length is the offset: element 0 of a match of sArg
+		mo := nr.Of(mexpr)
+		if mo.K != "index" || len(mo.Sub) != 2 {
 			return false, "the text handed to the helper at " + p.InstrPos(ci) + " is not element 0 of a pattern match"
 		}
-		ia, ok := ld.X.(*ssa.IndexAddr)
-		if !ok || !isIntConst(ia.Index) || ia.Index.(*ssa.Const).Int64() != 0 {
+		if k, okK := mo.Sub[1].ConstInt(); !okK || k != 0 {
 			return false, "the text handed to the helper at " + p.InstrPos(ci) + " is not element 0 of a pattern match"
 		}
-		mc := matchCallOf(ia.X)
+		var mc *ssa.Call
+		if mo.Sub[0].K == "call" && mo.Sub[0].Name == "(*regexp.Regexp).FindStringSubmatch" {
+			mc, _ = mo.Sub[0].V.(*ssa.Call)
+		}
 		if mc == nil {
 			return false, "the text handed to the helper at " + p.InstrPos(ci) + " is not element 0 of a pattern match"
 		}
-		if !sameValue(cr.Of(mc.Call.Args[1]), cr.Of(sArg)) {
+		mr := mo.Sub[0].R
+		if mr == nil {
+			mr = cr
+		}
+		if !sameValue(mr.Of(mc.Call.Args[1]), cr.Of(sArg)) {
 			return false, "at " + p.InstrPos(ci) + " the match is of a different string than the one sliced"
 		}
 		if cst == 0 {
@@ -1190,9 +1203,9 @@ func sliceAfterMatchParam(p *Prog, s *ssa.Slice) (bool, string) {
 					return false
 				}
 				bi, ok := c.Call.Value.(*ssa.Builtin)
-				return ok && bi.Name() == "len" && sameValue(cr.Of(c.Call.Args[0]), want)
+				return ok && bi.Name() == "len" && (sameValue(cr.Of(c.Call.Args[0]), want) || trimOrg(cr.Of(c.Call.Args[0]).String()) == trimOrg(want.String()))
 			}
-			so, mo := cr.Of(sArg), cr.Of(mArg)
+			so := cr.Of(sArg)
 			if (isLenOf(b.X, so) && isLenOf(b.Y, mo)) || (isLenOf(b.Y, so) && isLenOf(b.X, mo)) {
 				if (b.Op == token.EQL && !a.Pos) || (b.Op == token.NEQ && a.Pos) {
 					okGuard = true
